@@ -94,7 +94,9 @@ func (g *G) genStored(focus string) storedSpec {
 		s.lmOff = pick(g, "10", "15", "25", "100", "1000", "3600", "36000", "3600000", "-10", "0")
 	}
 	if g.chance(0.3) {
-		s.age = pick(g, "0", "3", "5", "50", "-5", "junk", "100000000000000000000", "9223372036", "9223372037", "2147483648", "1.5")
+		s.age = pick(g, "0", "3", "5", "50", "-5", "junk", "100000000000000000000", "9223372036", "9223372037", "2147483648", "1.5",
+			// a list-based value (two caches' Age fields merged by a gateway): the first member counts (RFC 9111 §5.1)
+			"100, 5", "5, 100", "3600,0", " 50 , 1", ", 50", "junk, 50")
 	}
 	s.etag = g.chance(0.6)
 	for _, f := range []string{"no-cache", "must-revalidate", "immutable", "public", "private", "no-store", "must-understand", "no-transform", "ext=1"} {
@@ -199,6 +201,10 @@ func (s storedSpec) reply(atNs int64, body string) Reply {
 		h = append(h, [2]string{"Last-Modified", httpDate(dateSec - off)})
 	}
 	if s.age != "" {
+		if strings.HasPrefix(s.age, ",") {
+			// an empty first Age field line in front of the value
+			h = append(h, [2]string{"Age", ""})
+		}
 		h = append(h, [2]string{"Age", s.age})
 	}
 	if s.etag {
